@@ -18,6 +18,9 @@ func runExtras(e *Engine, prop, tier string) []*extraResult {
 	if prop == "C20" {
 		out = append(out, e.checkAcceptCompleteness())
 	}
+	if prop == "C18" {
+		out = append(out, e.checkSharedWrites())
+	}
 	if prop == "C05" {
 		out = append(out, runBoundedGoTest(prop, tier, "bounded:SetLinks", "boltz", "c05_setlinks_test.go", "^TestVerifBoundedSetLinks$",
 			"linkCollectionImpl.SetLinks (sorted merge): exhaustive on the real code with a real bbolt file over 4 link targets (byte-order and prefix relations), every current set x every requested list of length <= 4 over the targets plus one missing id, any order, duplicates allowed (quick: 16 x 781; thorough: 5 targets, length <= 5: 32 x 9331); checks the resulting set on both sides, IsLinked, a bystander entity, and that a missing target fails"))
